@@ -36,6 +36,7 @@ struct G<'a> {
     our_iws: i64,              // the initial stream window we advertised and the peer acknowledged
     pending_iws: Option<i64>,  // announced, not yet acknowledged by the (scripted) peer
     settings_to_ack: usize,
+    pongs_owed: Vec<Vec<u8>>,   // PINGs the endpoint sent and the peer has not answered yet
     next_peer_sid: u32,
     woken: BTreeSet<String>,
     dead: bool,
@@ -117,6 +118,13 @@ impl<'a> G<'a> {
                             s.credit += inc;
                         }
                     }
+                    "P" => {
+                        if p.len() == 4 && p[2] == "0" {
+                            if let Some(b) = crate::util::unhex(p[3]) {
+                                self.pongs_owed.push(b);
+                            }
+                        }
+                    }
                     "S" => {
                         if p[2] == "0" {
                             self.settings_to_ack += 1;
@@ -155,6 +163,20 @@ impl<'a> G<'a> {
 
     fn peer(&mut self, bytes: Vec<u8>) {
         self.op(format!("cn_peer {}", hex(&bytes)));
+    }
+
+    /// the peer answers the PINGs it owes (in order); now and then an acknowledgement nobody asked for comes first
+    fn answer_pings(&mut self) {
+        if self.pongs_owed.is_empty() {
+            return;
+        }
+        if self.rng.chance(1, 4) {
+            self.peer(wire(6, 1, 0, &[7, 7, 7, 7, 7, 7, 7, 7]));
+        }
+        let owed = std::mem::take(&mut self.pongs_owed);
+        for p in owed {
+            self.peer(wire(6, 1, 0, &p));
+        }
     }
 
     fn ack_settings(&mut self) {
@@ -528,6 +550,9 @@ impl<'a> G<'a> {
             }
             _ => {
                 self.ack_settings();
+                if self.rng.chance(1, 2) {
+                    self.answer_pings();
+                }
                 self.op("cn_poll".to_string());
             }
         }
@@ -707,6 +732,9 @@ impl<'a> G<'a> {
             }
             _ => {
                 self.ack_settings();
+                if self.rng.chance(1, 2) {
+                    self.answer_pings();
+                }
                 self.op("cn_poll".to_string());
             }
         }
@@ -904,6 +932,7 @@ impl<'a> G<'a> {
             if Self::field(&a, "r=") == "ok" {
                 let a = self.op("cn_poll".to_string());
                 // echo the user ping
+                self.pongs_owed.clear();
                 let tx = Self::field(&a, "tx=").to_string();
                 for f in tx.split(';') {
                     let p: Vec<&str> = f.split(':').collect();
@@ -920,6 +949,15 @@ impl<'a> G<'a> {
                     self.op("cn_pollpong".to_string());
                 }
             }
+        }
+        if self.role == "server" && self.rng.chance(1, 3) {
+            // graceful shutdown: GOAWAY(2^31-1) + PING, the final GOAWAY once that PING is acknowledged
+            self.op("cn_graceful".to_string());
+            self.op("cn_poll".to_string());
+            self.answer_pings();
+            self.op("cn_poll".to_string());
+            self.op("cn_poll".to_string());
+            self.op("cn_io".to_string());
         }
         match self.rng.below(9) {
             0 => {
@@ -1002,6 +1040,7 @@ impl<'a> G<'a> {
         self.op("cn_budget inf".to_string());
         for _ in 0..6 {
             self.ack_settings();
+            self.answer_pings();
             let a = self.op("cn_poll".to_string());
             if Self::field(&a, "tx=") == "-" && self.settings_to_ack == 0 {
                 break;
@@ -1057,6 +1096,7 @@ pub fn generate(profile: &str, rng: &mut Rng, cases: usize, out: &mut dyn Write)
             our_iws: 65535,
             pending_iws: None,
             settings_to_ack: 0,
+            pongs_owed: vec![],
             next_peer_sid: 1,
             woken: BTreeSet::new(),
             dead: false,
